@@ -90,7 +90,7 @@ func init() {
 	reg(&propCfg{ID: "C07", Test: "TestC07", Quick: tierCfg{2500, 4}, Thorough: tierCfg{120000, 16}})
 	reg(&propCfg{ID: "C02", Test: "TestC02", Quick: tierCfg{4000, 4}, Thorough: tierCfg{250000, 16}})
 	reg(&propCfg{ID: "C08", Test: "TestC08", Quick: tierCfg{5000, 4}, Thorough: tierCfg{500000, 16}})
-	reg(&propCfg{ID: "C01", Test: "TestC01", Quick: tierCfg{4000, 4}, Thorough: tierCfg{300000, 16}, Fuzz: []fuzzCfg{{"FuzzC01", 3 * time.Minute}}})
+	reg(&propCfg{ID: "C01", Test: "TestC01", Quick: tierCfg{6000, 8}, Thorough: tierCfg{300000, 16}, Fuzz: []fuzzCfg{{"FuzzC01", 3 * time.Minute}}})
 	reg(&propCfg{ID: "C12", Test: "TestC12", Quick: tierCfg{10000, 4}, Thorough: tierCfg{600000, 16}})
 }
 
